@@ -198,7 +198,7 @@ PROPS["C11"] = {
 }
 
 PROPS["C15"] = {
-    "streams": [{"name": "tlv"}, {"name": "inst"}],
+    "streams": [{"name": "tlv"}, {"name": "inst"}, {"name": "forwarder", "chunk_prefixes": ["FWD new"]}],
     "model_is_spec": ["tlv", "inst"],
     "spec_theorem": "the model forwards exactly the parent's queued TLVs in order within the room (C15.fwdLoop_spec, announce_suffix), emits decodable Announces <= 1024 octets (C15.announce_fits, announce_decodes) and discards looping Announces without effect (C15.loop_discarded)",
     "rule": "tlv: boundary clocks (one to three ports, one Slave, the others Master) whose parent announces with TLV suffixes - PATH_TRACE of "
@@ -213,6 +213,10 @@ PROPS["C15"] = {
             "Announce bit-exact, the number of queue items consumed, path trace data set. Independent oracle: ForwardTLV actions = the propagating "
             "TLVs of the Announce in order; emitted suffix = [PATH_TRACE(stored path + own)] + the consumed queue items of the parent in order; "
             "head left behind does not fit; size <= 1024; own parser accepts; the announce timer never panics; a looping Announce changes nothing. "
+            "forwarder: the real statime_linux TlvForwarder (tokio broadcast channel) shared by one to three port tasks: Announces' worth of "
+            "TLVs of 8..1100 octets, bursts of 100..300 (lag and overflow), announce timers taking what fits with shrinking room, empty(), BMCA "
+            "hand-backs under the clearing rule read from main.rs (UDP and ethernet task), with oracles: nothing larger than asked, unmodified, "
+            "in order and at most once per port, the oldest fitting TLV is not withheld, a Master port's queue survives the BMCA hand-back. "
             "distinct = distinct ops with a ForwardTLV action or an Announce emitted with a non-empty queue or path trace",
     "explanation": "Lean: forward_actions, fwdLoop_spec, announce_fits, announce_decodes, path trace theorems, loop_discarded",
     "assumptions": INST_ASSUME + ["the daemon's TlvForwarder (tokio broadcast channel, lag and overflow) is modelled as the queue the host passes to the announce timer; its own code is not in the model",
@@ -474,6 +478,8 @@ def projection(pid, stream, profile):
         return f12
     if pid == "C15":
         def f15(op, obs):
+            if op.startswith("FWD "):
+                return obs
             parts = obs.split(" | ")
             items = parts[0].split(" ; ")
             keep = [it for it in items if ":fwd " in it or (":send gen" in it and len(frame_tok(it)) >= 128 and frame_tok(it)[1] == "b")]
@@ -545,5 +551,5 @@ def replay_body(pid, stream, ops, idx):
     return ops[idx] + "\n"
 
 
-STATEFUL = {"inst", "bmca", "fml", "c07", "master", "view", "tlv", "timed", "filt", "loop", "exporter", "net"}
-SCENARIO_START = {"filt": ("FLT knew", "FLT bnew"), "loop": ("FLT knew", "FLT bnew"), "exporter": ("EXP new",), "net": ("N0 INIT",)}
+STATEFUL = {"inst", "bmca", "fml", "c07", "master", "view", "tlv", "timed", "filt", "loop", "exporter", "net", "forwarder"}
+SCENARIO_START = {"filt": ("FLT knew", "FLT bnew"), "loop": ("FLT knew", "FLT bnew"), "exporter": ("EXP new",), "net": ("N0 INIT",), "forwarder": ("FWD new",)}
